@@ -77,6 +77,7 @@ type Engine struct {
 	depth    int
 	schedDec int // number of scheduling decisions on this path
 	faultAt  map[string]int
+	osLog    []osCall
 
 	// scheduler
 	gors         []*gor
